@@ -1015,10 +1015,9 @@ def main(argv):
         done = set()
         if not fatal:
             report_spec_failures()
-        # a failing input of one of the named defect classes does not explain a broken tie elsewhere; only a
-        # new (unclassified) failing input does
+        # a reported (not known-listed) failing input explains a broken tie; a failing input of an open finding does not
         def explained():
-            return any(v["status"] == "violation" and k == M_OTHER for k, v in reported.items())
+            return any(v["status"] == "violation" for v in reported.values())
         unsuppressed = explained()
         widened = False
         if not fatal and (not proof_ok or tie_idx() or thm_idx()) and not unsuppressed:
